@@ -21,6 +21,11 @@ NA = {
 PENDING_REASON = "claimed in DESIGN.md; its check is still under construction (moves to checks[] when its command exists)"
 
 CHECKS = {
+"C18": dict(
+  text="Seeded exploration (deterministic simulation): (a) histories of evaluations (succeeding, failing, cut off by a frame limit; results kept alive across state drops; random drop order) executed twice on one thread, with the collector's tracked-object count and the interner pool size compared between the two teardowns; the C07/C16 fault plans are re-run under the same teardown oracle; (b) interner operation histories (intern, clone, drop, cast both ways, context hand-over between real OS threads released one at a time by the simulator) checked after every step against a multiset model; in the thorough tier the same interpreter runs under Miri (undefined behaviour, leaks, data races). A clean batch is evidence, not proof.",
+  note="Trusted: jrsonnet-gcmodule's count_thread_tracked()/collect_thread_cycles() define 'tracked'; thread-local singletons (the empty object) are not garbage, so the oracle is 'no growth between two executions of the same history' plus a small absolute bound; hand-over is exercised in the legal regime only (the reuse regime is the known limitation F8 in DESIGN.md, not claimed).",
+  technique="deterministic simulation: seeded evaluation/drop/hand-over histories with teardown invariants and a reference model of the interner (plus Miri in the thorough tier)",
+  design="§5.6"),
 "C16": dict(
   text="Seeded exploration (deterministic simulation): the hash-iteration order of every map keyed by interned strings is put behind a seeded salt seam, and the evaluation history of the thread and of long-lived states (succeeding, failing and frame-limit-cut-off evaluations, pre-interned string pools, fresh/long-lived/second state) is generated per run; the target program's output or error text and its std.trace event list must be byte-identical to a pristine-thread reference run. Fresh-process runs of the shipped binary under ASLR complement the salted runs. A clean batch is evidence, not proof.",
   note="Trusted: salted content hashing permutes the same maps address hashing perturbs in production; the pristine reference run defines the expected bytes (this check does not judge what the output should be). Outcomes decided by an explicit frame limit are compared only up to 'stopped by the limit or equal to the unlimited result' because memoised values legitimately need fewer frames. Known finding F1 is matched by its exact signature only.",
